@@ -165,3 +165,129 @@ def ends_in_raise(stmts):
     if isinstance(last, ast.If):
         return ends_in_raise(last.body) and ends_in_raise(last.orelse)
     return False
+
+
+# ----------------------------------------------------------------------------- robustness helpers
+
+def literals_tested(test, var):
+    """string literals `var` is compared with in `test`: var == 'a', var in ('a', 'b'), or-combinations.
+    Returns None when the test is not purely such a comparison of `var`."""
+    out = set()
+    parts = test.values if isinstance(test, ast.BoolOp) and isinstance(test.op, ast.Or) else [test]
+    for t in parts:
+        if isinstance(t, ast.Compare) and len(t.ops) == 1 and norm(t.left) == var:
+            c = t.comparators[0]
+            if isinstance(t.ops[0], ast.Eq) and isinstance(c, ast.Constant) and isinstance(c.value, str):
+                out.add(c.value)
+                continue
+            if isinstance(t.ops[0], ast.In) and isinstance(c, (ast.Tuple, ast.List, ast.Set)) and all(isinstance(e, ast.Constant) for e in c.elts):
+                out |= {e.value for e in c.elts}
+                continue
+            if isinstance(t.ops[0], ast.In) and isinstance(c, ast.Name):
+                out.add("<" + c.id + ">")
+                continue
+        return None
+    return out
+
+
+def dispatch_arms(fnode, var):
+    """{frozenset(literals): If node} for every `if <var> == lit / in (...)` test in a function"""
+    out = {}
+    for n in walk_local(fnode):
+        if isinstance(n, ast.If):
+            lits = literals_tested(n.test, var)
+            if lits:
+                out.setdefault(frozenset(lits), n)
+    return out
+
+
+def arm_for(arms, literal):
+    for lits, node in arms.items():
+        if literal in lits:
+            return node
+    return None
+
+
+def isinstance_types(fnode, subject=None):
+    """class names tested by isinstance(subject, X) / isinstance(subject, (X, Y)) anywhere in the function"""
+    out = set()
+    for n in walk_local(fnode):
+        if isinstance(n, ast.Call) and isinstance(n.func, ast.Name) and n.func.id == "isinstance" and len(n.args) == 2:
+            if subject is not None and norm(n.args[0]) != subject:
+                continue
+            t = n.args[1]
+            for e in (t.elts if isinstance(t, ast.Tuple) else [t]):
+                out.add(norm(e))
+    return out
+
+
+def true_facts(cfg, node):
+    """normalised texts of conditions known TRUE when `node` executes (from dominating guard edges,
+    negations pushed inward, conjunctions split)"""
+    from sa.canon import negate, ExprCanon
+    import copy
+
+    out = set()
+    for (t, lab) in cfg.guards_of(node):
+        if t.kind != "test" or lab not in ("true", "false"):
+            continue
+        e = copy.deepcopy(t.ast)
+        if lab == "false":
+            e = ExprCanon().visit(ast.fix_missing_locations(ast.Expression(body=negate(e)))).body
+        todo = [e]
+        while todo:
+            x = todo.pop()
+            if isinstance(x, ast.BoolOp) and isinstance(x.op, ast.And):
+                todo.extend(x.values)
+            else:
+                out.add(norm(x))
+    return out
+
+
+def assigned_values(fnode, name):
+    """value expressions assigned to local `name` (plain assignments)"""
+    out = []
+    for n in walk_local(fnode):
+        if isinstance(n, ast.Assign):
+            for t in n.targets:
+                if isinstance(t, ast.Name) and t.id == name:
+                    out.append(n.value)
+        elif isinstance(n, ast.AnnAssign) and isinstance(n.target, ast.Name) and n.target.id == name and n.value is not None:
+            out.append(n.value)
+    return out
+
+
+def resolve_local(fnode, expr, depth=3):
+    """follow a chain of single-assignment locals: the expression a Name ultimately stands for"""
+    while depth > 0 and isinstance(expr, ast.Name):
+        vals = assigned_values(fnode, expr.id)
+        if len(vals) != 1:
+            break
+        expr = vals[0]
+        depth -= 1
+    return expr
+
+
+def calls_to(a, f, callee_names):
+    """Call nodes in f (incl. nested expressions) whose resolved target is a package function with one of the names"""
+    out = []
+    for n in ast.walk(f.node):
+        if isinstance(n, ast.Call):
+            cs = a.cg.by_node.get(id(n))
+            if cs is not None and any(t.node.name in callee_names for t in cs.targets):
+                out.append(n)
+            elif isinstance(n.func, ast.Name) and n.func.id in callee_names and cs is None:
+                out.append(n)
+    return out
+
+
+def table_calls(a, f, table):
+    """Call nodes in f dispatched through the given Table (fn = T.get(k); fn(...))"""
+    ids = {x.id for x in table.all_funcs()}
+    out = []
+    for n in ast.walk(f.node):
+        if isinstance(n, ast.Call):
+            cs = a.cg.by_node.get(id(n))
+            if cs is not None and cs.kind in ("table", "stored") and cs.targets and {t.id for t in cs.targets} <= ids:
+                out.append(n)
+    return out
